@@ -42,11 +42,14 @@ def case(f):
 
 
 # ------------------------------------------------------------------------------------------------ scalar translator
+MODULES = {}          # further modules (dotted name -> text) the snippets may import helpers from
+
+
 def tr(src, specs, header=HDR):
     """-> {lean name: {'real': text, 'float': text} | {'refused': reason}}, report"""
     global _C
     _C = _C or gen_all.load_constants()
-    texts, report = gen_all.translate_source(header + src, specs, C=_C)
+    texts, report = gen_all.translate_source(header + src, specs, C=_C, modules=dict(MODULES))
     out = {}
     for key, why in report["refused"].items():
         out[key.split(".", 1)[1]] = {"refused": why}
@@ -128,7 +131,14 @@ MSHAPES = {"K": (M, N), "S_a": (N, N), "S_y": (M, M)}
 def trm(src, names=("f",), shapes=None, ret=None):
     specs = [(MOD, REL, n, dict(shapes or MSHAPES)) for n in names]
     exp = {n: (ret or (N, N)) for n in names}
-    lean, frac, rep = gen_oem.translate(lambda rel: src, specs, exp)
+    def read(rel):
+        if rel == REL:
+            return src
+        dotted = rel[:-3].replace("/", ".")
+        if dotted in MODULES:
+            return MODULES[dotted]
+        raise OSError(rel)
+    lean, frac, rep = gen_oem.translate(read, specs, exp)
     out = {}
     for n in names:
         if n in rep["refused"]:
